@@ -39,6 +39,11 @@ type funcContract struct {
 	panicsIf []clause
 	modifies []string // raw location strings; "*" = everything
 	hasMod   bool
+	// modIf: conditional frame.  When cond (evaluated in the pre-state) holds, only the
+	// listed items may change, whatever the unconditional `modifies` says.
+	modIf *modIfClause
+	// witnesses: instantiation hints (terms over the parameters / entry state)
+	witnesses []clause
 	// preserves: heap cells excluded from a coarse `modifies` (heap, pkg(..), elems)
 	preserves []string
 	// ghost code by decree: ghostWrites are havocked at every return of the function
@@ -84,6 +89,11 @@ type ghostField struct {
 	name    string
 	typ     *ctype
 	where   string
+}
+
+type modIfClause struct {
+	cond  clause
+	items []string
 }
 
 type lemmaDecl struct {
@@ -280,7 +290,7 @@ func newContractSet() *contractSet {
 var clauseKeywords = map[string]bool{
 	"prop": true, "requires": true, "ensures": true, "modifies": true, "loop": true, "trusted": true,
 	"pure": true, "panics-if": true, "nopanic": true, "maypanic": true, "mode": true, "decreases": true, "refines": true,
-	"noframe": true, "using": true, "noinv": true, "rec": true, "preserves": true, "ghost-writes": true, "defines": true,
+	"noframe": true, "witness": true, "modifies-if": true, "using": true, "noinv": true, "rec": true, "preserves": true, "ghost-writes": true, "defines": true,
 }
 
 var reLoop = regexp.MustCompile(`^(\d+)\s*:\s*(invariant|decreases)\s+(.*)$`)
@@ -497,6 +507,31 @@ func (cs *contractSet) loadContractFile(path, pkgPath string) error {
 						return err
 					}
 					fc.defines = append(fc.defines, cl)
+				case "witness":
+					for _, wsrc := range splitTop(rest) {
+						e, err := parseCExpr(wsrc)
+						if err != nil {
+							return fmt.Errorf("%s: %v", cw, err)
+						}
+						fc.witnesses = append(fc.witnesses, clause{src: wsrc, e: e, label: "witness", where: cw})
+					}
+				case "modifies-if":
+					i := strings.LastIndex(rest, " : ")
+					if i < 0 {
+						return fmt.Errorf("%s: modifies-if needs `cond : items`", cw)
+					}
+					e, err := parseCExpr(strings.TrimSpace(rest[:i]))
+					if err != nil {
+						return fmt.Errorf("%s: %v", cw, err)
+					}
+					mi := &modIfClause{cond: clause{src: strings.TrimSpace(rest[:i]), e: e, label: "modif", where: cw}}
+					for _, m := range strings.Split(rest[i+3:], ",") {
+						m = strings.TrimSpace(m)
+						if m != "" && m != "nothing" {
+							mi.items = append(mi.items, m)
+						}
+					}
+					fc.modIf = mi
 				case "preserves":
 					for _, m := range strings.Split(rest, ",") {
 						m = strings.TrimSpace(m)
@@ -719,4 +754,27 @@ func (cs *contractSet) sortedFuncKeys() []string {
 	}
 	sort.Strings(ks)
 	return ks
+}
+
+// splitTop splits s at commas that are not nested in parentheses or brackets.
+func splitTop(s string) []string {
+	var out []string
+	d, start := 0, 0
+	for i := 0; i < len(s); i++ {
+		switch s[i] {
+		case '(', '[':
+			d++
+		case ')', ']':
+			d--
+		case ',':
+			if d == 0 {
+				out = append(out, strings.TrimSpace(s[start:i]))
+				start = i + 1
+			}
+		}
+	}
+	if t := strings.TrimSpace(s[start:]); t != "" {
+		out = append(out, t)
+	}
+	return out
 }
